@@ -145,11 +145,11 @@ def _free_name(rng, w, parent_path, names, kind):
     return None
 
 
-def _motif(rng, w, names, inside=None, idtag=""):
+def _motif(rng, w, names, inside=None, idtag="", path_based=False):
     """A structured op sequence the random generator almost never produces: a path that comes to name a
     different entry than before (directory renamed away and re-created, sibling directories swapped, a file
     renamed onto the path of a removed file, two files swapped through a temporary name, a file replaced by a
-    directory and the reverse), combined with
+    directory and the reverse, byte-identical copies of a file with the original deleted / renamed / kept), combined with
     in-place renames, additions and content edits below / at those paths.  Returns (kind, [op, ...]) or None."""
     from vf.model import ROOT
 
@@ -175,13 +175,18 @@ def _motif(rng, w, names, inside=None, idtag=""):
             cands.append(("file-replace", f))
             cands.append(("file-swap", f))
     for f in files:
+        if w.ents[f].content:
+            # byte-identical additions next to a deletion / rename / the surviving original: on path-based (git) trees
+            # the rename detector then reports renames and exact copies instead of plain deletions and additions
+            cands += [("copy-delete-two", f), ("copy-rename", f), ("copy-keep", f)]
+    for f in files:
         cands.append(("file-becomes-dir", f))
     for d in dirs:
         cands.append(("dir-becomes-file", d))
     if not cands:
         return None
     kinds = sorted({k for k, _ in cands})
-    kind = rng.choices(kinds, [2 if k.startswith("dir-") else 1 for k in kinds])[0]
+    kind = rng.choices(kinds, [2 if k.startswith("dir-") else ((4 if path_based else 1) if k.startswith("copy-") else 1) for k in kinds])[0]
     a = rng.choice([x for k, x in cands if k == kind])
     ops = []
     pa = w.path(a)
@@ -190,7 +195,37 @@ def _motif(rng, w, names, inside=None, idtag=""):
     def content():
         return gen.gen_content(rng, hostile=False) or b"motif\n"
 
-    if kind == "file-becomes-dir":
+    if kind.startswith("copy-"):
+        data = w.ents[a].content
+        if rng.random() < 0.2:
+            data = data + b"a line more\n"  # a modified copy
+        n1 = _free_name(rng, w, parent, names, "file")
+        if n1 is None or not ok(n1):
+            return None
+        if kind == "copy-delete-two":
+            ops.append({"op": "remove", "path": pa})
+        elif kind == "copy-rename":
+            ops.append({"op": "rename", "src": pa, "dst": n1})
+            n1 = None
+        for n in (n1, None):
+            if n is None:
+                # a second / only copy somewhere else in the tree
+                d2 = rng.choice([""] + [w.path(d) for d in dirs]) if inside is None else rng.choice([inside] + [w.path(d) for d in dirs])
+                taken = {o.get("dst") for o in ops} | {o.get("path") for o in ops}
+                pool = [x for x in names.files + ["copy-of", "dup"] if w.free((d2 + "/" + x) if d2 else x) and ((d2 + "/" + x) if d2 else x) not in taken]
+                if not pool:
+                    continue
+                x = rng.choice(pool)
+                n = (d2 + "/" + x) if d2 else x
+                if not ok(n) and inside is not None:
+                    continue
+            if kind == "copy-keep" and n == n1 and rng.random() < 0.5:
+                continue  # sometimes one copy only
+            ops.append({"op": "mkfile", "path": n, "content": data})
+            ops.append({"op": "add", "path": n, "id": idtag + w.new_id("cp")})
+        if not any(o["op"] == "mkfile" for o in ops):
+            return None
+    elif kind == "file-becomes-dir":
         # the path of a removed file is taken by a new directory with content (on git an empty one would not exist)
         inner = rng.choice(names.files)
         ops += [{"op": "remove", "path": pa}, {"op": "mkdir", "path": pa}, {"op": "add", "path": pa, "id": idtag + w.new_id("fd")},
@@ -258,7 +293,7 @@ def _apply_motif(rng, wt, names, inside=None, idtag=""):
     """Apply one motif to wt; returns (kind or None, applied ops, clean)."""
     w = gen.world_from_tree(wt)
     try:
-        m = _motif(rng, w, names, inside, idtag)
+        m = _motif(rng, w, names, inside, idtag, path_based=not wt.supports_setting_file_ids())
     except (IndexError, KeyError, ValueError):
         m = None
     if m is None:
@@ -538,7 +573,7 @@ def _case(ctx):
     n2 = rng.randint(1, 6)
     ops1 = ops2 = []
     # structured sequences (path reuse: directory re-created / swapped, file renamed onto a vacated path) lead the delta
-    m1, m2 = rng.random() < 0.45, rng.random() < 0.45
+    m1, m2 = rng.random() < (0.6 if git else 0.45), rng.random() < (0.6 if git else 0.45)
     mlog = []
     log["motifs"] = mlog
     try:
